@@ -138,6 +138,10 @@ func (H) Gen(prop string, rng *rand.Rand, tier string) *core.Plan {
 				qf.A = 1 // a row with another field arrives while the flush runs
 			}
 			p.Ops = append(p.Ops, qf)
+		case r < 76:
+			// the statement is asked while every kv family of the node (index, metadata, data) is being compacted:
+			// a compaction may commit, delete and unmap its input files between two steps of one query
+			p.Ops = append(p.Ops, core.Op{K: "qflush", A: 2, S: fmt.Sprint(rng.Intn(1 << 30))})
 		default:
 			p.Ops = append(p.Ops, core.Op{K: "query", S: fmt.Sprint(rng.Intn(1 << 30))})
 		}
@@ -868,7 +872,12 @@ func (r *run) query(op core.Op, duringFlush bool) {
 	if duringFlush {
 		flushDone = false
 		c.Sim.Spawn("flusher", func() {
-			r.flush()
+			if op.A == 2 {
+				r.compact()
+				c.Sim.Probe("query-during-compaction")
+			} else {
+				r.flush()
+			}
 			flushDone = true
 		})
 	}
